@@ -207,6 +207,22 @@ def decide(pid, tier, units, args):
         rc = 1
     n_ob = len(obligations)
     n_dis = sum(1 for o in obligations if o["discharged"])
+    # vacuity guard: every obligation recorded for the unchanged tree must have been generated again
+    ids_now = sorted({o["id"] for o in obligations} | {b["id"] for b in bounded})
+    exp_path = os.path.join(ROOT, "expected", "%s.json" % pid)
+    if getattr(args, "record", False):
+        os.makedirs(os.path.dirname(exp_path), exist_ok=True)
+        exp = json.load(open(exp_path)) if os.path.exists(exp_path) else {}
+        exp[tier] = ids_now
+        json.dump(exp, open(exp_path, "w"), indent=0)
+        print("recorded %d expected obligations for %s/%s" % (len(ids_now), pid, tier))
+    elif os.path.exists(exp_path):
+        exp = json.load(open(exp_path)).get(tier)
+        if exp is not None:
+            missing = sorted(set(exp) - set(ids_now))
+            if missing and rc == 0 and not undec:
+                print("UNDECIDED: %d obligations expected for %s were not generated (lost function / unit not loaded), e.g. %s" % (len(missing), pid, missing[:3]))
+                rc = 2
     # a unit that could not be processed leaves the property undecided (unless a violation was
     # established by another unit)
     if undec and rc == 0:
@@ -301,6 +317,7 @@ def main(argv):
     ap.add_argument("--setup", action="store_true")
     ap.add_argument("--scan", action="store_true")
     ap.add_argument("--keep", action="store_true")
+    ap.add_argument("--record", action="store_true", help="record the obligation ids generated now as the expected set (unchanged tree only)")
     ap.add_argument("-v", "--verbose", action="store_true")
     args = ap.parse_args(argv)
     if args.setup:
